@@ -285,6 +285,11 @@ func (r *rng) genBigIntProg() []biStep {
 			if y.Sign() == 0 || ri == s.d {
 				continue
 			}
+			if s.op == "DivMod" && ri == s.b {
+				// math/big's own DivMod reads y again after it has written m (z.DivMod(-7, 2, y) with
+				// m == y gives -2, 0): the call has no defined meaning to be equivalent to
+				continue
+			}
 			s.arg = fmt.Sprint(ri)
 			if s.op == "QuoRem" {
 				q, rr := new(big.Int).QuoRem(x, y, new(big.Int))
